@@ -1,3 +1,4 @@
+.PHONY: engine
 # setup: nothing to pre-build -- every check compiles the engine together with its harness against the
 # library objects of /repo's current working tree (run_check.py).  This target only verifies the toolchain.
 engine:
